@@ -48,6 +48,26 @@ IsoDecl(s) ==
                 IN GVal(SubSeq(body, 1, c[1])) * 3600 + GVal(SubSeq(body, c[1] + 1, c[2])) * 60
                    + GVal(SubSeq(body, c[2] + 1, n))
 
+\* ---- formatting a duration (duration2iso): P[nD][T[nH][nM][nS]], zero is PT0S ------------------------------------
+DigitTok(d) == CASE d = 0 -> "0" [] d = 1 -> "1" [] d = 2 -> "2" [] d = 3 -> "3" [] d = 4 -> "4"
+                 [] d = 5 -> "5" [] d = 6 -> "6" [] d = 7 -> "7" [] d = 8 -> "8" [] d = 9 -> "9"
+RECURSIVE Digits(_)
+Digits(n) == IF n < 10 THEN <<DigitTok(n)>> ELSE Digits(n \div 10) \o <<DigitTok(n % 10)>>
+Part(n, letter) == IF n = 0 THEN <<>> ELSE Digits(n) \o <<letter>>
+FormatIso(secs) ==
+   IF secs = 0 THEN <<"P", "T", "0", "S">>
+   ELSE LET d == secs \div 86400   r == secs % 86400
+            h == r \div 3600   m == (r % 3600) \div 60   x == r % 60
+        IN <<"P">> \o Part(d, "D") \o (IF r = 0 THEN <<>> ELSE <<"T">>) \o Part(h, "H") \o Part(m, "M") \o Part(x, "S")
+\* reading such a string back: optional day group before the optional time part
+IsoSecsD(s) ==
+   IF Len(s) < 2 \/ s[1] # "P" THEN Reject
+   ELSE LET d == Group(s, 2, "D")
+        IN IF d[3] = Len(s) + 1 THEN (IF d[1] THEN d[2] * 86400 ELSE Reject)
+           ELSE IF s[d[3]] # "T" THEN Reject
+           ELSE LET h == Group(s, d[3] + 1, "H")   m == Group(s, h[3], "M")   x == Group(s, m[3], "S")
+                IN IF x[3] = Len(s) + 1 /\ (h[1] \/ m[1] \/ x[1]) THEN d[2] * 86400 + h[2] * 3600 + m[2] * 60 + x[2] ELSE Reject
+
 ListUnitSecs(u) == CASE u = "s" -> 1 [] u = "m" -> 60 [] u = "h" -> 3600 [] OTHER -> 0
 ListSecs(items) == IF Len(items) = 2 /\ items[1].t = "int" /\ items[2].t = "str" /\ ListUnitSecs(items[2].s) > 0
                    THEN items[1].v * ListUnitSecs(items[2].s) ELSE Reject
